@@ -724,6 +724,34 @@ def run(res, tier):
     resume_offset_rule(res, fx)
     count_consulted_rule(res, fx)
     byte_view_rule(res, fx)
+    # ACCUMULATE: several frames decoded from one read are collected in one pending Message
+    res.rule('ACCUMULATE', 'a gateway member that collects decoded chunks during one DoInput() call (it is appended to with AddFlat/AddString/AddData and handed up elsewhere) is re-created only '
+                           'where it was found empty (NULL): creating it afresh for every frame drops the frames decoded earlier in the same call', floor=1)
+    n_ac = 0
+    for g in sorted((g for g in fx.funcs.values() if g.full and g.file.startswith('iogateway/')), key=lambda g: (g.file, g.line)):
+        app = [c for c in g.walk() if c['k'] == 'CXXMemberCallExpr' and re.search(r'Message::Add(Flat|String|Data)$', c.get('q') or '') and c.receiver() is not None
+               and any(x['k'] == 'MemberExpr' and A.is_this_member(x) and 'MessageRef' in (x.type() or '') or (x['k'] == 'MemberExpr' and A.is_this_member(x) and 'Ref<muscle::Message>' in (x.type() or '')) for x in c.receiver().walk())]
+        for c in app:
+            mem = [x for x in c.receiver().walk() if x['k'] == 'MemberExpr' and A.is_this_member(x)][0]
+            fresh = [w for w in g.walk() if w['k'] == 'CXXOperatorCallExpr' and (w.get('q') or '').endswith('::operator=') and len(w['ch']) > 2 and A.strip_casts(w['ch'][1]).get('n') == mem.get('n')
+                     and A.is_this_member(A.strip_casts(w['ch'][1])) and any(x.is_call() and (x.get('q') or '').endswith('GetMessageFromPool') for x in w['ch'][2].walk())]
+            if not fresh:
+                continue
+            n_ac += 1
+            bad = None
+            for w in fresh:
+                isnull = False
+                for (cn, t) in G.atoms_at(g, w):
+                    core, pol = P.strip_not(cn)
+                    if P.is_pointerish(core) and (pol if t else (not pol)) is False and any(x['k'] == 'MemberExpr' and x.get('n') == mem.get('n') for x in core.walk()):
+                        isnull = True
+                if not isnull:
+                    bad = bad or w
+            res.ob('ACCUMULATE', g.where(fresh[0]), '%s: `%s` is created only when it is still NULL' % (g.q.split('::')[-1], mem.get('n')), bad is None, function=g.q, key='ACCUMULATE|%s|%s' % (g.q, mem.get('n')),
+                   message='%s assigns a fresh Message to `%s` without having found it NULL: every completed frame replaces the Message that holds the frames decoded earlier in the same read, so with '
+                           'two or more frames in one read only the last one is delivered (fine-grained segmentations still work)' % (g.q, mem.get('n')))
+    if n_ac < 1:
+        raise AnalysisBroken('ACCUMULATE: no accumulating pending-Message member found in the gateways (SLIPFramedDataMessageIOGateway expected)')
     stale_cursor_rule(res, fx)
     queue_ends_rule(res, fx)
     codec_direction_rule(res, fx)
